@@ -1,33 +1,107 @@
-import PbVerif.Lemmas.JsonTextScalar
+import PbVerif.Lemmas.JsonTextRoundJ4
+import PbVerif.Lemmas.JsonTextFails
 /-
 C20 — protojson round-trips every JSON-representable message (tree level; Model/JsonText.lean).
 
-Full statement (DESIGN §6):
-    fromJSON_toJSON : representable m → fromJSON S mi (toJSON opts S mi m) = ok (dropUnknown (canon m))
-    toJSON_fails_iff : toJSON … = error ↔ ¬ representable m
-for every combination of the six options.  `Multiline` and `Indent` do not exist at tree level: they only
-change the whitespace the encoder writes between tokens, and the tree-level theorems compose with the lexical
-round trip `parse (print v) = v` of engine jsonlex (C21).  Proved here (see the individual statements):
+Full statement (DESIGN §6), for every combination of the six options:
+    fromJSON_toJSON  : representable m → fromJSON S mi (toJSON opts S mi m) = ok (dropUnknown (canon m))
+    toJSON_fails_iff : toJSON opts S mi m = error ↔ ¬ representable m
+`Multiline` and `Indent` do not exist at tree level (they only change the whitespace between tokens); the option
+record `JOpts` carries them for completeness and the theorems hold for ALL values of the record — all 2^6
+combinations.  The tree-level theorems compose with the lexical round trip `parse (print v) = v` of engine
+jsonlex (C21): its laws are the hypothesis `JLaws` (never an axiom).
 
-  * scalar_roundtrip         every scalar kind, every value, every option record
-  * scalar_fails_iff         `marshalSingular` fails iff a string is not valid UTF-8
+PROVED (`…_partial`): for ALL schemas, messages and limits in the fragment `RepMsg wfScalarJ`:
+  singular scalars of every kind (64-bit integers as strings, 32-bit as numbers, bool, enum by name or by number,
+  string, bytes/base64, float/double incl. NaN/±Infinity), presence disciplines (explicit, implicit with the
+  zero value suppressed, required), repeated fields, nested messages and groups to any depth ≤ RecursionLimit,
+  oneofs (seenOneofs), extensions (`[full.name]` keys), UseProtoNames / UseEnumNumbers, EmitUnpopulated /
+  EmitDefaultValues (null, [], {}, zero values are printed and change nothing on input), json_name vs proto
+  name, duplicate detection (seenNums) never firing on the encoder's output, unknown fields dropped,
+  NaNs as one value.
+
+OUTSIDE the fragment (statements kept above; covered by the implementation-level check of the harness only):
+  * map fields that are *populated* (unpopulated map fields are inside: `{}`); the model has them (`jEntries`,
+    `sortK`, `dEntries`) and the harness compares them, the proof of `fromJSON_toJSON` does not cover them yet;
+  * fields of type google.protobuf.Value / NullValue (DESIGN finding 18: under EmitUnpopulated the full statement
+    is FALSE for them — `pb2.KnownTypes{}`), the other well-known types and Any (delegated to engine wktjson);
+  * MessageSets; required-field checking (the harness uses AllowPartial);
+  * messages nested deeper than the decoder's RecursionLimit: they do not round-trip (Marshal has no limit).
 -/
 namespace C20
 open JT Pb
 
-/-- **every scalar kind and value** (bool, the ten integer kinds, float/double incl. NaN/±Inf, string, bytes, enum by name
-or by number): `unmarshalScalar (marshalSingular v) = v`, NaNs as one value, for ALL option records -/
+/-- **every scalar kind and value**: `unmarshalScalar (marshalSingular v) = v`, NaNs as one value, for ALL option records -/
 theorem scalar_roundtrip (C : JCodec) (L : JLaws C) (o : JOpts) (D : DOpts) (fx : FieldX) (v : Val)
     (hw : wfScalarJ fx v = true) (hnull : fx.nullEnum = false) (hen : namesDistinct fx.enums) :
     ∃ j, jScalar C o fx v = .ok j ∧ j.isNull = false ∧ dScalar C D fx j = .ok (some (normScalar fx v)) :=
   dScalar_jScalar C L o D fx v hw hnull hen
 
-/-- the hypotheses are satisfiable: int64 min in an int64 field -/
 example : wfScalarJ { f := { num := 1, kind := .int64, card := .optional }, jsonNames := [], textNames := [] }
     (.num (2 ^ 63)) = true := by decide
 
-/-- `marshalSingular` on a value of the right shape fails iff it is a string that is not valid UTF-8
-(whether or not the field enforces UTF-8: `json.Encoder.WriteString` refuses it) -/
+/-- **`fromJSON_toJSON_partial`**: for every schema `X` (hypotheses `SchemaJ`: distinct field numbers, output names
+resolve to their own field, consistent presence flags — checked on every corpus schema by the harness), every option
+record `o`, every decoder option record `D`, every limit and every message of the fragment:
+`Unmarshal(Marshal(m))` succeeds and yields `m` without unknown fields (NaNs as one value). -/
+theorem fromJSON_toJSON_partial (C : JCodec) (L : JLaws C) (D : DOpts) (X : SchemaX) (o : JOpts)
+    (hS : SchemaJ X o) (mi : Nat) (limit : Int) (m : Msg) (hrep : RepMsg wfScalarJ X mi limit m) :
+    ∃ jv, toJSON C o X mi m = .ok jv ∧ fromJSON C D X mi limit jv = .ok (normMsg X mi m) := by
+  obtain ⟨jv, h1, _, h2⟩ := rtJ_msg C D X o hS L m mi limit hrep
+  exact ⟨jv, h1, h2⟩
+
+/-- the hypotheses are satisfiable by a non-trivial message: `{1: 5, 2: {1: 7}}` of a two-message schema -/
+def exSchema : SchemaX :=
+  { msgs := [
+      { fields := [
+          { f := { num := 1, kind := .int32, card := .optional }, jsonNames := [ascii ['a']], textNames := [ascii ['a']], presence := true },
+          { f := { num := 2, kind := .message, card := .optional, sub := 1 }, jsonNames := [ascii ['b']], textNames := [ascii ['b']], presence := true }] },
+      { fields := [
+          { f := { num := 1, kind := .uint32, card := .implicit }, jsonNames := [ascii ['c']], textNames := [ascii ['c']] }] }] }
+
+def exMsg : Msg :=
+  .mk (.cons 1 (.one (.num 5)) (.cons 2 (.one (.msg (.mk (.cons 1 (.one (.num 7)) .nil) []))) .nil)) []
+
+theorem oneofExcl_of_none (d : MsgX) (fs : Fields) (h : ∀ fx ∈ d.fields, fx.oneofIdx = none) : OneofExcl d fs := by
+  intro a b fa fb o _ _ h3 _ h5 _
+  have := h fa (find_mem h3).1
+  rw [this] at h5
+  cases h5
+
+example : RepMsg wfScalarJ exSchema 0 100 exMsg := by
+  have e0 : OneofExcl (exSchema.msg 0) (.cons 1 (.one (.num 5)) (.cons 2 (.one (.msg (.mk (.cons 1 (.one (.num 7)) .nil) []))) .nil)) :=
+    oneofExcl_of_none _ _ (by decide)
+  have e1 : OneofExcl (exSchema.msg 1) (.cons 1 (.one (.num 7)) .nil) := oneofExcl_of_none _ _ (by decide)
+  have v5 : wfScalarJ { f := { num := 1, kind := .int32, card := .optional }, jsonNames := [ascii ['a']], textNames := [ascii ['a']], presence := true } (.num 5) = true := by decide
+  have v7 : wfScalarJ { f := { num := 1, kind := .uint32, card := .implicit }, jsonNames := [ascii ['c']], textNames := [ascii ['c']] } (.num 7) = true := by decide
+  exact ⟨by decide, rfl, rfl, e0, by decide, ⟨by decide, by decide, v5, by decide⟩, by decide,
+    ⟨by decide, by decide, ⟨rfl, by decide, rfl, rfl, e1, by decide, ⟨by decide, by decide, v7, by decide⟩, trivial⟩, by decide⟩, trivial⟩
+
+/-- **`toJSON_fails_iff_partial`**: for a message of the right *shape* (as the fragment, but strings may hold any
+bytes), `Marshal` fails IFF the message is not representable — some string, in a field that enforces UTF-8 or
+not, is invalid UTF-8 — and then with the invalid-UTF-8 error; otherwise it succeeds. -/
+theorem toJSON_fails_iff_partial (C : JCodec) (X : SchemaX) (o : JOpts) (mi : Nat) (limit : Int) (m : Msg)
+    (hshape : RepMsg wfShapeJ X mi limit m) :
+    ((∃ e, toJSON C o X mi m = .error e) ↔ ¬ RepMsg wfScalarJ X mi limit m) ∧
+    (∀ e, toJSON C o X mi m = .error e → e = .utf8) := by
+  rcases failsJ_msg C o X m mi limit hshape with ⟨jv, hj, hrep⟩ | ⟨he, hnrep⟩
+  · refine ⟨⟨?_, fun h => absurd hrep h⟩, ?_⟩
+    · rintro ⟨e, h⟩
+      unfold toJSON at h
+      rw [hj] at h
+      cases h
+    · intro e h
+      unfold toJSON at h
+      rw [hj] at h
+      cases h
+  · refine ⟨⟨fun _ => hnrep, fun _ => ⟨.utf8, he⟩⟩, ?_⟩
+    intro e h
+    unfold toJSON at h
+    rw [he] at h
+    cases h
+    rfl
+
+/-- `marshalSingular` on a string fails iff it is not valid UTF-8 (whether or not the field enforces it) -/
 theorem scalar_fails_iff (C : JCodec) (o : JOpts) (fx : FieldX) (b : Str) (hk : fx.f.kind = .string) (e : EErr) :
     jScalar C o fx (.bytes b) = .error e ↔ (e = .utf8 ∧ utf8Valid b = false) := by
   simp only [jScalar, hk]
